@@ -1406,7 +1406,25 @@ func ruleBackfill(r *Report) {
 		if !(canReach(snaps[0], seeks[0]) && canReach(seeks[0], apps[0])) {
 			ok, why = false, "snapshot ≺ seek ≺ apply does not hold"
 		}
-		// the index applied is the one created here, the column snapshotted is the target
+		// Snapshot answers whether it wrote anything (false for an index): where that answer is
+		// tested, the apply sits on its true edge
+		if sv, isV := snaps[0].(ssa.Value); isV && ok {
+			tested := false
+			for _, ref := range *sv.Referrers() {
+				switch ref.(type) {
+				case *ssa.If, *ssa.UnOp:
+					tested = true
+				}
+			}
+			if tested && !edgeGuarded(apps[0].Block(), func(c ssa.Value) (bool, bool) {
+				if strip(c) == sv {
+					return true, true
+				}
+				return false, false
+			}) {
+				ok, why = false, "the snapshot is applied on the edge on which Snapshot reported that it wrote nothing"
+			}
+		}
 		h.Check(ok, name, r.P.InstrPos(snaps[0]), "for block in [0, chunks()): snapshot ≺ seek ≺ apply", "back-fill of the new index is incomplete: "+why)
 		// the index is in the registry before the first block is read: a commit that lands on a block the
 		// loop has already passed finds the index registered and maintains it itself
